@@ -108,8 +108,16 @@ func mutateField(t *rapid.T, m *model.Packet, name string) {
 		m.RequestProblemInfo = bl()
 	case "SetAuthMethod":
 		m.AuthMethod = str()
+		if !zero && rapid.IntRange(0, 3).Draw(t, "authdict") == 0 {
+			m.AuthMethod = rapid.SampledFrom(authMethodNames).Draw(t, "authmethodname")
+		}
 	case "SetAuthData":
 		m.AuthData = bin()
+		if !zero && rapid.IntRange(0, 3).Draw(t, "authdatadict") == 0 {
+			// shapes of real authentication exchanges (SCRAM messages with and
+			// without the GS2 header, bare separators, a JWT-like token)
+			m.AuthData = []byte(rapid.SampledFrom([]string{"n,,n=user,r=fyko+d2lbbFgONRv9qkxdawL", "r=fyko,s=QSXCR+Q6sek8bf92,i=4096", "c=biws,r=fyko,p=v0X8v3Bz2T0CJGbJQyF0X+HI4Ts=", "v=rmF9pqV8S7suAoZWja4dJRkFsKQ=", "n,,", ",", "=", "a=b,c", "\x00user\x00pass", "eyJhbGciOiJIUzI1NiJ9.e30.x", "user:pass"}).Draw(t, "authdatashape"))
+		}
 	case "SetSessionPresent":
 		m.SessionPresent = bl()
 	case "SetReasonCode":
@@ -168,8 +176,20 @@ func mutateField(t *rapid.T, m *model.Packet, name string) {
 		m.CorrelationData = bin()
 	case "SetContentType":
 		m.ContentType = str()
+		if !zero && rapid.IntRange(0, 3).Draw(t, "ctdict") == 0 {
+			// registered media types: code may look at the payload for some
+			m.ContentType = rapid.SampledFrom([]string{"application/json", "APPLICATION/JSON", "application/json; charset=utf-8", "application/vnd.api+json", "application/cbor", "application/xml", "text/plain", "text/plain; charset=utf-8", "application/octet-stream", "application/x-protobuf", "image/png", "text/csv"}).Draw(t, "ctname")
+		}
 	case "SetPayload":
 		m.Payload = bin()
+		if !zero && rapid.IntRange(0, 5).Draw(t, "payloadshape") == 0 {
+			// payloads with a shape: documents, whitespace only, a lone brace
+			m.Payload = []byte(rapid.SampledFrom([]string{"\n", " ", " \t\r\n", "{}", "[1,2]", "{", "\"x\"", "null", "<a/>", "\xef\xbb\xbf{}", "a,b\n1,2\n", "\x00"}).Draw(t, "payloadshapev"))
+		}
+		if ct := strings.ToLower(m.ContentType); !zero && (strings.Contains(ct, "json") || strings.Contains(ct, "xml") || strings.Contains(ct, "csv")) && rapid.Bool().Draw(t, "payloadforct") {
+			// a typed payload that is blank or broken
+			m.Payload = []byte(rapid.SampledFrom([]string{"\n", " ", "\t \n", "{", "", "\xff"}).Draw(t, "payloadforctv"))
+		}
 		if rapid.IntRange(0, 59).Draw(t, "hugepayload") == 0 {
 			// the remaining length moves into its 3- and 4-byte forms
 			m.Payload = bytes.Repeat([]byte{0x5a}, rapid.SampledFrom([]int{16384, 2097151, 2097152, 2097160}).Draw(t, "hugepayloadlen"))
@@ -254,6 +274,7 @@ func checkC12(c caseC12) (sig, msg string) {
 	// credential, a copy of a message): what is set on p later is p's business
 	bystander := api.NewPacket(int(c.Type))
 	byWant := map[string][]byte{}
+	byDelay := false
 	bytesSetters := map[string]string{"SetPassword": "Password", "SetAuthData": "AuthData", "SetCorrelationData": "CorrelationData", "SetPayload": "Payload"}
 	for i, st := range c.Steps {
 		s, ok := byName[st.Setter]
@@ -273,6 +294,13 @@ func checkC12(c caseC12) (sig, msg string) {
 					lastWill = api.BuildWill(m.Will)
 				}
 				cp.SetWill(lastWill)
+				// the same will message is also given to the second CONNECT,
+				// which has a will delay of its own
+				if bc, ok := bystander.(*mq.Connect); ok {
+					bc.SetWill(lastWill)
+					bc.SetWillDelayInterval(77)
+					byDelay = true
+				}
 			}
 		}
 		if pan := guard.Call(apply); pan != nil {
@@ -282,6 +310,13 @@ func checkC12(c caseC12) (sig, msg string) {
 			if arg := api.LastBin; len(arg) > 0 && len(arg) <= 4096 {
 				guard.Call(func() { api.SetBytesField(bystander, field, arg) })
 				byWant[field] = append([]byte(nil), arg...)
+			}
+		}
+		if byDelay {
+			var d uint32
+			guard.Call(func() { d = bystander.(*mq.Connect).WillDelayInterval() })
+			if d != 77 {
+				return "bystander:WillDelayInterval", fmt.Sprintf("a second CONNECT was given the same will message and a will delay interval of 77 of its own; after step %d (%s on p) its WillDelayInterval() is %d", i, st.Setter, d)
 			}
 		}
 		for field, wantB := range byWant {
@@ -498,3 +533,6 @@ func reasonLike(t *rapid.T, code uint8) string {
 		return string(spaced)
 	}
 }
+
+// authMethodNames: registered SASL mechanisms and other method names in use.
+var authMethodNames = []string{"PLAIN", "LOGIN", "SCRAM-SHA-1", "SCRAM-SHA-256", "SCRAM-SHA-256-PLUS", "SCRAM-SHA-512", "OAUTHBEARER", "XOAUTH2", "EXTERNAL", "ANONYMOUS", "CRAM-MD5", "DIGEST-MD5", "GSSAPI", "GS2-KRB5", "NTLM", "scram-sha-1", "digest", "jwt", "K8S-SAT", "SCRAM-"}
